@@ -77,8 +77,15 @@ func GenCrdtRace(t *rapid.T) CrdtRaceCase {
 	return c
 }
 
-// RunCrdtRace executes a case.
-func RunCrdtRace(c CrdtRaceCase) Result {
+// RunCrdtRace executes a case (C04: the replica ends at the join of everything).
+func RunCrdtRace(c CrdtRaceCase) Result { return runCrdtRace(c, false) }
+
+// RunCrdtRaceDelta additionally delivers every payload twice (two links carrying the same update) and checks the
+// deltas the merges hand on (C13): a (key, time) pair becomes news for the replica at most once, so at most one merge
+// may report it - and exactly one if no local operation could have set it.
+func RunCrdtRaceDelta(c CrdtRaceCase) Result { return runCrdtRace(c, true) }
+
+func runCrdtRace(c CrdtRaceCase, deltas bool) Result {
 	universe := CrdtEvents()
 	saved := crdt.Now
 	defer func() { crdt.Now = saved }()
@@ -126,6 +133,8 @@ func RunCrdtRace(c CrdtRaceCase) Result {
 	defer rep.Close()
 
 	var wg sync.WaitGroup
+	var dmu sync.Mutex
+	reported := map[string]int{} // "key|field|time" -> number of merges whose delta carried it
 	mergeErr := make(chan string, 64)
 	merged := make([]bool, len(enc))
 	startMerge := func(i int) chan struct{} {
@@ -139,7 +148,18 @@ func RunCrdtRace(c CrdtRaceCase) Result {
 				mergeErr <- fmt.Sprintf("payload %d does not decode: %v", i, err)
 				return
 			}
-			rep.Merge(in)
+			if ret := rep.Merge(in); ret != nil {
+				dmu.Lock()
+				for k, t := range stateOf(ret.(*event.State), universe) {
+					if t.add != 0 {
+						reported[fmt.Sprintf("%s|add|%d", k, t.add)]++
+					}
+					if t.del != 0 {
+						reported[fmt.Sprintf("%s|del|%d", k, t.del)]++
+					}
+				}
+				dmu.Unlock()
+			}
 			// a reader on the gossip side, as Swarm.merge iterating the delta does
 			for _, ev := range universe {
 				rep.Has(ev)
@@ -186,6 +206,9 @@ func RunCrdtRace(c CrdtRaceCase) Result {
 		if !merged[i] {
 			startMerge(i)
 		}
+		if deltas { // the same update arrives over a second link at the same time
+			startMerge(i)
+		}
 	}
 	wg.Wait()
 	select {
@@ -200,6 +223,29 @@ func RunCrdtRace(c CrdtRaceCase) Result {
 	}
 	if msg := checkReplica(rep, want, universe); msg != "" {
 		return Failf("one replica (durable=%v) used by local operations and gossip merges at once: after everything was applied %s; it must hold the join of all updates %v", c.Durable, msg, sortedLww(want))
+	}
+	if deltas {
+		local := map[string]bool{}
+		for _, op := range c.Ops {
+			f := "add"
+			if op.Del {
+				f = "del"
+			}
+			local[fmt.Sprintf("%s|%s|%d", mkey(universe[op.Ev]), f, op.T)] = true
+		}
+		for k, n := range reported {
+			if n > 1 {
+				return Failf("replica (durable=%v) merging payloads from several links at once: %d merges handed on %q as news in their delta; it can have been new to the replica only once", c.Durable, n, k)
+			}
+		}
+		for k, t := range want {
+			for f, v := range map[string]int64{"add": t.add, "del": t.del} {
+				id := fmt.Sprintf("%s|%s|%d", k, f, v)
+				if v != 0 && !local[id] && reported[id] != 1 {
+					return Failf("replica (durable=%v) merging payloads from several links at once: the update %q, which only gossip carried, changed the replica but %d merges reported it in their delta (expected exactly 1); it is withheld from onward relay", c.Durable, id, reported[id])
+				}
+			}
+		}
 	}
 	labels := []string{"race-volatile"}
 	if c.Durable {
